@@ -188,8 +188,12 @@ class InterfaceLDM3:
         if self.ldm_service.ldm_maintenance.data_containers.exists("dataObjectID", data_provider.data_object_id):
             data_object_type_str = self.ldm_service.get_object_type_from_data_object(
                 data_provider.data_object)
-            if self.ldm_service.ldm_maintenance.data_containers.exists(
-                data_object_type_str, data_provider.data_object_id
+            stored_data_container = self.ldm_service.ldm_maintenance.get_provider_data(
+                data_provider.data_object_id)
+            if (
+                stored_data_container is not None
+                and self.ldm_service.get_object_type_from_data_object(stored_data_container["dataObject"])
+                == data_object_type_str
             ):
                 new_data_object_id = self.ldm_service.update_provider_data(
                     data_provider.data_object_id, data_provider.data_object
